@@ -5,13 +5,14 @@ EXTENDS Criteria, TLC, Json, IOUtils, SequencesExt
 Thorough == IOEnv.TIER = "thorough"
 Z6 == <<0, 0, 0, 0, 0, 0>>
 \* ---- stress lattices
-DiagVals == IF Thorough THEN -2..2 ELSE {-1, 0, 2}
+DiagVals2 == IF Thorough THEN -2..2 ELSE {-1, 0, 2}
+DiagVals3 == {-1, 0, 2}
 Shear2 == -1..1
 Shear3 == IF Thorough THEN {<<0, 0, 0>>, <<1, 0, 0>>, <<0, 1, 0>>, <<0, 0, 1>>, <<1, -1, 1>>, <<1, 2, 0>>, <<0, -1, 2>>, <<2, 1, 1>>}
           ELSE {<<0, 0, 0>>, <<1, 0, 0>>, <<0, 0, 1>>, <<1, -1, 1>>, <<1, 2, 0>>}
 Stress(n) == IF n = 1 THEN {<<a, b, c, 0, 0, 0>> : a \in -2..2, b \in -2..2, c \in -2..2}
-             ELSE IF n = 2 THEN {<<a, b, c, d, 0, 0>> : a \in DiagVals, b \in DiagVals, c \in DiagVals, d \in Shear2}
-             ELSE {<<a, b, c, h[1], h[2], h[3]>> : a \in DiagVals, b \in DiagVals, c \in DiagVals, h \in Shear3}
+             ELSE IF n = 2 THEN {<<a, b, c, d, 0, 0>> : a \in DiagVals2, b \in DiagVals2, c \in DiagVals2, d \in Shear2}
+             ELSE {<<a, b, c, h[1], h[2], h[3]>> : a \in DiagVals3, b \in DiagVals3, c \in DiagVals3, h \in Shear3}
 AllStresses == Stress(1) \cup Stress(2) \cup Stress(3)
 \* ---- parameter sets
 P(crit, par, pd) == [crit |-> crit, par |-> par, pd |-> pd, fn |-> 0, fd |-> 1]
@@ -54,12 +55,12 @@ Lattice == UNION {{Base(ps, n, s, Z6, 0, 0, "lattice") : ps \in ParamSets, s \in
 \* a few stresses replayed at other binary scales (Mohr-Coulomb has absolute thresholds: not below 1)
 Probe(n) == IF n = 1 THEN {<<1, 0, -2, 0, 0, 0>>, <<2, 2, -1, 0, 0, 0>>}
             ELSE IF n = 2 THEN {<<1, 0, -2, 1, 0, 0>>, <<2, 2, -1, 0, 0, 0>>} ELSE {<<1, 0, -2, 1, -1, 1>>, <<0, 0, 0, 1, 0, 0>>}
-Scaled == UNION {{Base(ps, n, s, Z6, 0, k, "scaled") : ps \in ParamSets, s \in Probe(n), k \in {30, -20}} : n \in 1..3}
+Scaled == UNION {{Base(ps, n, s, Z6, 0, k, "scaled") : ps \in ParamSets, s \in Probe(n), k \in (IF Thorough THEN {30, -20, 10, -10} ELSE {30, -20})} : n \in 1..3}
 \* nearly coincident principal stresses (eigen-based criteria): gap 2^-20 (far above seps = 2^-40) and 2^-45 (below)
 NearS(n) == IF n = 3 THEN {<<2, 2, -1, 0, 0, 0>>, <<1, 1, 1, 1, 0, 0>>, <<0, 0, 0, 1, 1, 1>>, <<1, 0, 0, 0, 0, 0>>}
             ELSE {<<2, 2, -1, 0, 0, 0>>, <<1, -1, -1, 0, 0, 0>>, <<1, 0, 0, 0, 0, 0>>}
 Near == UNION {{Base(ps, n, s, <<1, 0, 0, 0, 0, 0>>, t, 0, "near") : ps \in {q \in ParamSets : q.crit \in {"hosford", "barlat"}},
-                                                                     s \in NearS(n), t \in {20, 45}} : n \in 1..3}
+                                                                     s \in NearS(n), t \in (IF Thorough THEN {20, 30, 45} ELSE {20, 45})} : n \in 1..3}
 Cases == Lattice \cup {c \in Scaled : c.crit # "mohrcoulomb" \/ c.k > 0} \cup Near
 Number(S) == LET q == SetToSeq(S) IN [i \in 1..Len(q) |-> [id |-> i] @@ q[i]]
 ASSUME Theorems(AllStresses \cup {<<a, b, c, 0, 0, 0>> : a \in -3..3, b \in -3..3, c \in -3..3})
